@@ -6,6 +6,26 @@ pub mod support {
 pub mod c13 {
     include!(concat!(env!("ETHERCRAB_VERIF_DIR"), "/c13.rs"));
 }
+#[cfg(kani)]
+pub mod c05 {
+    include!(concat!(env!("ETHERCRAB_VERIF_DIR"), "/c05.rs"));
+}
+#[cfg(kani)]
+pub mod c02 {
+    include!(concat!(env!("ETHERCRAB_VERIF_DIR"), "/c02.rs"));
+}
+#[cfg(kani)]
+pub mod c01 {
+    include!(concat!(env!("ETHERCRAB_VERIF_DIR"), "/c01.rs"));
+}
+#[cfg(kani)]
+pub mod c03 {
+    include!(concat!(env!("ETHERCRAB_VERIF_DIR"), "/c03.rs"));
+}
+#[cfg(kani)]
+pub mod c06 {
+    include!(concat!(env!("ETHERCRAB_VERIF_DIR"), "/c06.rs"));
+}
 #[cfg(all(kani, test))]
 mod playback_current {
     include!(concat!(env!("ETHERCRAB_VERIF_DIR"), "/_playback_current.rs"));
